@@ -455,6 +455,48 @@ var scenarios = map[string]func(t *testing.T, rep *Report, root string){
 		}
 		w.S.StopAll()
 	},
+	// S21: a follower whose log is SHORTER than the snapshot it receives dies between the publication of the
+	// snapshot and the discard of its log; restarted, its boundary lies beyond the end of its log
+	"S21-crash-between-snapshot-publication-and-log-discard": func(t *testing.T, rep *Report, root string) {
+		w := newWorld(t, rep, "S21-crash-between-snapshot-publication-and-log-discard", root, SimOpts{SnapEvery: 5}, []uint64{1, 2, 3})
+		w.armed = map[uint64]bool{}
+		L := w.waitLeader(3 * time.Second)
+		F, O := w.others(L)[0], w.others(L)[1]
+		w.submit("rep", L, 0, false)
+		w.auto(300*time.Millisecond, nil, nil)
+		w.S.Sever(L, F)
+		w.S.Sever(O, F)
+		for i := 0; i < 9; i++ {
+			w.submit("rep", L, 0, false)
+			w.auto(100*time.Millisecond, nil, nil)
+		}
+		w.auto(500*time.Millisecond, nil, nil)
+		// F dies just before it discards its log (the snapshot it received is already published)
+		w.S.ArmCrash(F, 1, "ld")
+		w.armed[F] = true
+		w.S.HealAll()
+		w.auto(3*time.Second, nil, func() bool { return len(w.S.Tripped()) > 0 })
+		if len(w.S.Tripped()) == 0 {
+			rep.Notes = append(rep.Notes, "S21: the crash point did not fire (scenario did not reach its window)")
+			w.S.Disarm(F)
+			w.S.StopAll()
+			return
+		}
+		w.collectTrips()
+		rep.Hit("S21:crashed-before-discard")
+		w.incs[F]++
+		if err := w.restart(F, w.crashed[F]); err != nil {
+			w.violate("C14", "creating and starting a node over the directory of a crashed node failed", fmt.Sprintf("node %d: %v", F, err), map[string]string{"oracle": "restart-total"})
+			w.S.StopAll()
+			return
+		}
+		delete(w.crashed, F)
+		vs := w.S.Nodes[F].R.VerifGetState()
+		w.note("restarted F: boundary %d, log %s", vs.LastIncludedIndex, w.S.Nodes[F].LogOf().String())
+		w.quiet()
+		w.observe()
+		w.S.StopAll()
+	},
 	// S3: two removals back to back: the second is built from the un-updated configuration
 	"S3-lost-removal": func(t *testing.T, rep *Report, root string) {
 		w := newWorld(t, rep, "S3-lost-removal", root, SimOpts{}, []uint64{1, 2, 3, 4, 5})
